@@ -3,7 +3,7 @@ import RxProofs.Lemmas.ThrSO
 # C32 — observe_on / ScheduledObserver: every notification once, in order, serially, no lost wake-up
 
 Model: `RxModel/ThrSO.lean` (atomic-step model of `ScheduledObserver.ensure_active/run` and the
-`ObserveOnObserver` producers).  Every theorem below is about `run raises (init progs nc) sched`:
+`ObserveOnObserver` producers).  Every theorem below is about `run raises (init progs nc nd) sched`:
 ANY number of producer threads with ANY call lists `progs`, ANY number `nc` of scheduler threads
 able to execute the scheduled `run` action, ANY behaviour `raises` of the downstream observer
 (which deliveries raise) and ANY schedule `sched` (list of thread ids, unbounded).
@@ -17,30 +17,30 @@ open Thr Thr.SO
 variable {α : Type}
 
 /-- every state reached from an initial state satisfies the invariant -/
-theorem reach_inv (raises : Nat → Bool) (progs : List (List (Call α))) (nc : Nat) (sched : List Tid) :
-    SInv (run raises (init progs nc) sched) :=
-  run_inv raises _ sched (init_inv progs nc)
+theorem reach_inv (raises : Nat → Bool) (progs : List (List (Call α))) (nc nd : Nat) (sched : List Tid) :
+    SInv (run raises (init progs nc nd) sched) :=
+  run_inv raises _ sched (init_inv progs nc nd)
 
 /-- **In order**: at every moment of every interleaving the sequence handed to the downstream
 observer is a prefix of the sequence received (so: no reordering, no duplication, no invention). -/
-theorem delivered_is_prefix_in_order (raises : Nat → Bool) (progs : List (List (Call α))) (nc : Nat)
+theorem delivered_is_prefix_in_order (raises : Nat → Bool) (progs : List (List (Call α))) (nc nd : Nat)
     (sched : List Tid) :
-    (run raises (init progs nc) sched).delivered <+: (run raises (init progs nc) sched).received :=
-  (reach_inv raises progs nc sched).pref
+    (run raises (init progs nc nd) sched).delivered <+: (run raises (init progs nc nd) sched).received :=
+  (reach_inv raises progs nc nd sched).pref
 
 /-- **Conservation**: as long as no delivery has raised, every received notification is in exactly one
 place — already delivered, popped and about to be delivered, or still queued — in received order. -/
-theorem conservation (raises : Nat → Bool) (progs : List (List (Call α))) (nc : Nat) (sched : List Tid)
-    (h : (run raises (init progs nc) sched).raisedG = false) :
-    let s := run raises (init progs nc) sched
+theorem conservation (raises : Nat → Bool) (progs : List (List (Call α))) (nc nd : Nat) (sched : List Tid)
+    (h : (run raises (init progs nc nd) sched).raisedG = false) :
+    let s := run raises (init progs nc nd) sched
     s.delivered ++ s.cons.flatMap itemsC ++ s.queue = s.received :=
-  (reach_inv raises progs nc sched).order h
+  (reach_inv raises progs nc nd sched).order h
 
 theorem quiescent_facts (s : Sys α) (h : quiescent s = true) :
     sumBy appendedP s.prods = 0 ∧ sumBy owingP s.prods = 0 ∧ s.pendingRuns = 0 ∧ sumBy actC s.cons = 0 ∧
       s.cons.flatMap itemsC = [] := by
   simp only [quiescent, Bool.and_eq_true, List.all_eq_true, beq_iff_eq] at h
-  obtain ⟨⟨h1, h2⟩, h3⟩ := h
+  obtain ⟨⟨⟨h1, h2⟩, h3⟩, _⟩ := h
   refine ⟨?_, ?_, h2, ?_, ?_⟩
   · apply sumBy_eq_zero_of_forall; intro p hp
     have := h1 p hp
@@ -59,58 +59,71 @@ theorem quiescent_facts (s : Sys α) (h : quiescent s = true) :
 
 /-- **No lost wake-up**: in every reachable state in which nothing is left to run (all producers
 returned, no `run` pending on the scheduler, no `run` executing) the queue is empty, unless the
-observer has faulted. -/
-theorem no_lost_wakeup (raises : Nat → Bool) (progs : List (List (Call α))) (nc : Nat) (sched : List Tid)
-    (hq : quiescent (run raises (init progs nc) sched) = true) :
-    (run raises (init progs nc) sched).queue = [] ∨ (run raises (init progs nc) sched).hasFaulted = true := by
-  have inv := reach_inv raises progs nc sched
-  generalize run raises (init progs nc) sched = s at *
+observer has faulted — or `dispose()` cancelled the pending run (`lostToken`; only possible after the SerialDisposable was
+disposed, `lostToken_only_after_dispose`). -/
+theorem no_lost_wakeup (raises : Nat → Bool) (progs : List (List (Call α))) (nc nd : Nat) (sched : List Tid)
+    (hq : quiescent (run raises (init progs nc nd) sched) = true) :
+    (run raises (init progs nc nd) sched).queue = [] ∨ (run raises (init progs nc nd) sched).hasFaulted = true ∨
+      (run raises (init progs nc nd) sched).lostToken = true := by
+  have inv := reach_inv raises progs nc nd sched
+  generalize run raises (init progs nc nd) sched = s at *
   obtain ⟨q1, q2, q3, q4, _⟩ := quiescent_facts s hq
   cases hf : s.hasFaulted
-  · left
-    by_cases hqe : s.queue = []
-    · exact hqe
-    · exfalso
-      rcases inv.wake hqe hf with h | h
-      · have := inv.tok; simp [h, hf] at this; omega
-      · omega
-  · right; rfl
+  · cases hl : s.lostToken
+    · left
+      by_cases hqe : s.queue = []
+      · exact hqe
+      · exfalso
+        rcases inv.wake hqe hf with h | h
+        · have := inv.tok; simp [h, hf, hl] at this; omega
+        · omega
+    · right; right; rfl
+  · right; left; rfl
 
 /-- **Exactly once**: when nothing is left to run and no delivery raised, the downstream observer has
 been handed exactly the received sequence — every notification once, in order. -/
-theorem exactly_once (raises : Nat → Bool) (progs : List (List (Call α))) (nc : Nat) (sched : List Tid)
-    (hq : quiescent (run raises (init progs nc) sched) = true)
-    (hf : (run raises (init progs nc) sched).hasFaulted = false) :
-    (run raises (init progs nc) sched).delivered = (run raises (init progs nc) sched).received := by
-  have inv := reach_inv raises progs nc sched
-  have nl := no_lost_wakeup raises progs nc sched hq
-  generalize run raises (init progs nc) sched = s at *
+theorem exactly_once (raises : Nat → Bool) (progs : List (List (Call α))) (nc nd : Nat) (sched : List Tid)
+    (hq : quiescent (run raises (init progs nc nd) sched) = true)
+    (hf : (run raises (init progs nc nd) sched).hasFaulted = false)
+    (hl : (run raises (init progs nc nd) sched).lostToken = false) :
+    (run raises (init progs nc nd) sched).delivered = (run raises (init progs nc nd) sched).received := by
+  have inv := reach_inv raises progs nc nd sched
+  have nl := no_lost_wakeup raises progs nc nd sched hq
+  generalize run raises (init progs nc nd) sched = s at *
   obtain ⟨q1, q2, q3, q4, q5⟩ := quiescent_facts s hq
   have hr : s.raisedG = false := by
     cases hr : s.raisedG
     · rfl
     · obtain ⟨_, _, _, d4⟩ := inv.dead hr
-      have := inv.tok; simp [d4, hf] at this; omega
+      have := inv.tok; simp [d4, hf, hl] at this; omega
   have ho := inv.order hr
-  rcases nl with h | h
+  rcases nl with h | h | h
   · rw [q5, h] at ho; simpa using ho
   · simp [hf] at h
+  · simp [hl] at h
+
+/-- the ownership token is only ever lost through `dispose()`: without a dispose call (`nd = 0`, the observe_on path) or
+before the SerialDisposable is disposed, `lostToken` is false. -/
+theorem lostToken_only_after_dispose (raises : Nat → Bool) (progs : List (List (Call α))) (nc nd : Nat) (sched : List Tid)
+    (h : (run raises (init progs nc nd) sched).lostToken = true) :
+    (run raises (init progs nc nd) sched).serialDisposed = true :=
+  (reach_inv raises progs nc nd sched).lt h
 
 /-- **Serial**: at most one `run` is pending on the scheduler or executing, over all scheduler
 threads, in every reachable state. -/
-theorem at_most_one_run_active (raises : Nat → Bool) (progs : List (List (Call α))) (nc : Nat) (sched : List Tid) :
-    (run raises (init progs nc) sched).pendingRuns + sumBy actC (run raises (init progs nc) sched).cons ≤ 1 := by
-  have inv := reach_inv raises progs nc sched
+theorem at_most_one_run_active (raises : Nat → Bool) (progs : List (List (Call α))) (nc nd : Nat) (sched : List Tid) :
+    (run raises (init progs nc nd) sched).pendingRuns + sumBy actC (run raises (init progs nc nd) sched).cons ≤ 1 := by
+  have inv := reach_inv raises progs nc nd sched
   have := inv.tok
-  have : (run raises (init progs nc) sched).isAcquired.toNat ≤ 1 := Bool.toNat_le _
+  have : (run raises (init progs nc nd) sched).isAcquired.toNat ≤ 1 := Bool.toNat_le _
   omega
 
 /-- never two deliveries at once: at most one thread is inside a downstream callback. -/
-theorem deliveries_never_overlap (raises : Nat → Bool) (progs : List (List (Call α))) (nc : Nat) (sched : List Tid) :
-    sumBy delivC (run raises (init progs nc) sched).cons ≤ 1 := by
-  have := at_most_one_run_active raises progs nc sched
-  have := deliv_le_busy (run raises (init progs nc) sched).cons
-  have := busy_le_act (run raises (init progs nc) sched).cons
+theorem deliveries_never_overlap (raises : Nat → Bool) (progs : List (List (Call α))) (nc nd : Nat) (sched : List Tid) :
+    sumBy delivC (run raises (init progs nc nd) sched).cons ≤ 1 := by
+  have := at_most_one_run_active raises progs nc nd sched
+  have := deliv_le_busy (run raises (init progs nc nd) sched).cons
+  have := busy_le_act (run raises (init progs nc nd) sched).cons
   omega
 
 theorem raised_step (raises : Nat → Bool) (s : Sys α) (t : Tid) (inv : SInv s) (hr : s.raisedG = true) :
@@ -135,15 +148,21 @@ theorem raised_step (raises : Nat → Bool) (s : Sys α) (t : Tid) (inv : SInv s
     · rename_i pc hp
       have hb := sumBy_le_mem busyC _ j pc hp
       cases pc <;> simp only [consStep] <;> (repeat' split) <;> simp [hr] <;> simp [busyC] at hb <;> omega
+  | disp k =>
+    dsimp only
+    split
+    · exact ⟨rfl, hr⟩
+    · rename_i pc hp
+      cases pc <;> simp only [dispStep] <;> (repeat' split) <;> simp [hr]
 
 /-- **After a fault, nothing**: once a delivery has raised, no schedule whatsoever makes the downstream
 observer receive anything further. -/
-theorem after_fault_nothing (raises : Nat → Bool) (progs : List (List (Call α))) (nc : Nat) (sched more : List Tid)
-    (hr : (run raises (init progs nc) sched).raisedG = true) :
-    (run raises (init progs nc) (sched ++ more)).delivered = (run raises (init progs nc) sched).delivered := by
+theorem after_fault_nothing (raises : Nat → Bool) (progs : List (List (Call α))) (nc nd : Nat) (sched more : List Tid)
+    (hr : (run raises (init progs nc nd) sched).raisedG = true) :
+    (run raises (init progs nc nd) (sched ++ more)).delivered = (run raises (init progs nc nd) sched).delivered := by
   rw [run_append]
-  have inv := reach_inv raises progs nc sched
-  generalize run raises (init progs nc) sched = s at *
+  have inv := reach_inv raises progs nc nd sched
+  generalize run raises (init progs nc nd) sched = s at *
   induction more generalizing s with
   | nil => rfl
   | cons t ts ih =>
@@ -154,10 +173,10 @@ theorem after_fault_nothing (raises : Nat → Bool) (progs : List (List (Call α
 
 /-- the fault flag is only ever set after a delivery raised, and then the token is never released:
 no further `run` is scheduled or started. -/
-theorem after_fault_no_run (raises : Nat → Bool) (progs : List (List (Call α))) (nc : Nat) (sched : List Tid)
-    (hr : (run raises (init progs nc) sched).raisedG = true) :
-    (run raises (init progs nc) sched).pendingRuns = 0 ∧ sumBy busyC (run raises (init progs nc) sched).cons = 0 := by
-  obtain ⟨d1, _, d3, _⟩ := (reach_inv raises progs nc sched).dead hr
+theorem after_fault_no_run (raises : Nat → Bool) (progs : List (List (Call α))) (nc nd : Nat) (sched : List Tid)
+    (hr : (run raises (init progs nc nd) sched).raisedG = true) :
+    (run raises (init progs nc nd) sched).pendingRuns = 0 ∧ sumBy busyC (run raises (init progs nc nd) sched).cons = 0 := by
+  obtain ⟨d1, _, d3, _⟩ := (reach_inv raises progs nc nd sched).dead hr
   exact ⟨d1, d3⟩
 
 /-! ## Non-vacuity: concrete interleavings -/
@@ -168,7 +187,7 @@ open Tid in
 consumer's pop and delivery, the consumer releases the token exactly when 3 is being appended, the
 4th call is dropped by `is_stopped`. Ends quiescent with everything delivered. -/
 private def sch1 : List Tid :=
-  [prod 0, prod 0, prod 0, prod 0,      -- check, append 1, ea (owner), schedule(run)
+  [prod 0, prod 0, prod 0, prod 0, prod 0,   -- check, append 1, ea (owner), schedule(run), store its disposable
    cons 0, cons 0,                      -- run begins, pop 1
    prod 0, prod 0,                      -- check, append 2
    cons 0, cons 0, cons 0,              -- deliver 1 (start, end), re-schedule
@@ -176,7 +195,7 @@ private def sch1 : List Tid :=
    cons 0, cons 0, cons 0, cons 0, cons 0,   -- run: pop 2, deliver, re-schedule
    prod 0, prod 0,                      -- check, mark (terminal)
    cons 0, cons 0,                      -- run: queue empty -> release
-   prod 0, prod 0, prod 0,              -- append 3, ea (owner again), schedule
+   prod 0, prod 0, prod 0, prod 0,      -- append 3, ea (owner again), schedule, store
    prod 0,                              -- 4th call skipped
    cons 0, cons 0, cons 0, cons 0, cons 0, cons 0, cons 0]
 example : quiescent (run (fun _ => false) (init p1 1) sch1) = true := by decide
@@ -187,5 +206,12 @@ example : (run (fun k => k == 1) (init p1 1) sch1).hasFaulted = true ∧
     (run (fun k => k == 1) (init p1 1) sch1).delivered = [1, 2] ∧
     (run (fun k => k == 1) (init p1 1) sch1).received = [1, 2, 3] ∧
     quiescent (run (fun k => k == 1) (init p1 1) sch1) = true := by decide
+
+/-- dispose() while the run scheduled by ensure_active is still pending: the run is cancelled, the received
+notification is never delivered, and the state is quiescent with a non-empty queue — exactly the `lostToken` case. -/
+private def schD : List Tid :=
+  [Tid.prod 0, Tid.prod 0, Tid.prod 0, Tid.prod 0, Tid.prod 0, Tid.disp 0, Tid.disp 0, Tid.disp 0, Tid.cons 0]
+example : let s := run (fun _ => false) (init ([[⟨1, false⟩]] : List (List (Call Nat))) 1 1) schD
+    quiescent s = true ∧ s.queue = [1] ∧ s.delivered = [] ∧ s.lostToken = true ∧ s.serialDisposed = true := by decide
 
 end C32
